@@ -90,7 +90,15 @@ def check_setitem(ctx):
     d = Defs(fi.node)
     elem = f"self.{FIELD}[{idx}]"
     writes = [n for n in cfg.nodes if n.kind == "stmt" and isinstance(n.ast, ast.Assign) and norm(n.ast.targets[0]) == elem]
-    saves = [n for n in cfg.nodes if n.kind == "stmt" and isinstance(n.ast, ast.Assign) and isinstance(n.ast.targets[0], ast.Name) and norm(n.ast.value) == elem]
+    def _unwrap_copy(v):
+        """`copy(x)`, `copy.copy(x)`, `deepcopy(x)`, `np.copy(x)`, `np.array(x)`, `x.copy()` -> (x, True)"""
+        if isinstance(v, ast.Call) and (dotted(v.func) or "").split(".")[-1] in ("copy", "deepcopy", "array") and len(v.args) == 1 and not isinstance(v.func, ast.Attribute) or (isinstance(v, ast.Call) and dotted(v.func) in ("copy.copy", "copy.deepcopy", "np.copy", "numpy.copy", "np.array", "numpy.array") and len(v.args) == 1):
+            return v.args[0], True
+        if isinstance(v, ast.Call) and isinstance(v.func, ast.Attribute) and v.func.attr == "copy" and not v.args:
+            return v.func.value, True
+        return v, False
+
+    saves = [n for n in cfg.nodes if n.kind == "stmt" and isinstance(n.ast, ast.Assign) and isinstance(n.ast.targets[0], ast.Name) and norm(_unwrap_copy(n.ast.value)[0]) == elem]
     saves_copy = [n for n in cfg.nodes if n.kind == "stmt" and isinstance(n.ast, ast.Assign) and isinstance(n.ast.targets[0], ast.Name) and isinstance(n.ast.value, ast.Call) and (dotted(n.ast.value.func) or "").split(".")[-1] in ("copy", "deepcopy", "array") and f"self.{FIELD}" in norm(n.ast.value)]
     new_writes = [w for w in writes if norm(w.ast.value) == val]
     if not new_writes:
@@ -104,6 +112,11 @@ def check_setitem(ctx):
         ctx.undecided(R2, fi.key + ":save", "the whole vector is copied before the write (accepted in principle, restore shape must be checked by hand)", where)
     else:
         ctx.check(ok_save, R2, fi.key + ":save", "the old element is read before the write", "the old value is not saved as an element read `self._amplitude_vector[idx]` before the write (saving the vector object itself is an alias, not a snapshot)", where)
+    if ok_save and saves:
+        # `idx` may be a slice: for a numpy vector the element read is then a *view*, which the write changes as well, so the
+        # "saved" value has to be a copy for the rollback to restore anything
+        snap = any(_unwrap_copy(sv.ast.value)[1] for sv in saves if cfg.dominates(sv, w))
+        ctx.check(snap, R2, fi.key + ":save-is-a-snapshot", "the saved element(s) are copied", "the old value is kept as `self._amplitude_vector[idx]` itself: for a slice index of a numpy vector that is a view of the very entries being overwritten, so a rejected slice assignment (wf[0:2] = [1, 1]) raises but leaves the new, un-normalised amplitudes in place", where)
     checks = [n for n in cfg.nodes if n.ast is not None and n.kind == "stmt" and any(isinstance(c, ast.Call) and norm(c.func).endswith("_check_normalization") for c in walk_local(n.ast))]
     ok_check = bool(checks) and all(cfg.dominates(w, c) for c in checks) and any(cfg.dominates(c, cfg.exit) for c in checks)
     ctx.check(ok_check, R2, fi.key + ":check-after-write", "the write is followed by the normalisation check on every normal path", "an element can be written and the method return normally without the normalisation check having run", where)
